@@ -129,6 +129,16 @@ def gen():
     else:
         raise SystemExit("translator: struct caption.curr_chan not found")
 
+    # EDM / ENM: re-addressed to the caption channel of the data channel (`ch = &cc->channel[chan & 3];`, repair of finding F73)?
+    m12 = re.search(r"case\s+12\s*:(.*?)return\s*;", cmd, flags=re.S)
+    m14 = re.search(r"case\s+14\s*:(.*?)return\s*;", cmd, flags=re.S)
+    if not m12 or not m14 or "erase_memory" not in m12.group(1) or "erase_memory" not in m14.group(1):
+        raise SystemExit("translator: EDM / ENM blocks (case 12 / case 14) not found")
+    readdr = [re.match(r"\s*ch\s*=\s*&\s*cc->channel\s*\[\s*chan\s*&\s*3\s*\]\s*;", b.group(1)) is not None for b in (m12, m14)]
+    if readdr[0] != readdr[1] or any((("ch =" in b.group(1)) or ("ch=" in b.group(1))) != r for b, r in zip((m12, m14), readdr)):
+        raise SystemExit("translator: EDM and ENM must both start with `ch = &cc->channel[chan & 3];` or neither may assign ch")
+    edm_on_caption = readdr[0]
+
     def lst(v):
         return "[" + ", ".join(str(x) for x in v) + "]"
     out = ["-- GENERATED by translate/gen_cc.py from src/caption.c, cc.h, format.h, lang.c - do not edit",
@@ -164,6 +174,9 @@ def gen():
            "/-- `int curr_chan[2]`: one current channel per field, read as `curr_chan[field2]`, written as",
            "    `curr_chan[(new_chan >> 1) & 1]`?  (`false` = one `curr_chan` shared by both fields, finding F44) -/",
            "def currChanPerField : Bool := %s" % ("true" if per_field else "false"),
+           "/-- EDM and ENM start with `ch = &cc->channel[chan & 3];`: inside a Text Mode transmission they act on the caption",
+           "    memories (EIA-608-B 7.7 / Annex B.7)?  (`false` = they act on the text channel, finding F73) -/",
+           "def edmEnmOnCaption : Bool := %s" % ("true" if edm_on_caption else "false"),
            "", "end Zvbi.Gen.Cc", ""]
     return write_if_changed(os.path.join(OUT, "CcConsts.lean"), "\n".join(out))
 
